@@ -34,7 +34,7 @@ def build_with_paths(t, path, reg):
 def _register(r, t, path, reg):
     reg[id(r)] = (path, r)
     k = t[0]
-    kids = {"pool": lambda: t[1], "select": lambda: t[2], "filter": lambda: t[2], "repeat": lambda: [t[2]],
+    kids = {"pool": lambda: t[1], "select": lambda: t[2], "filter": lambda: t[2], "filterby": lambda: t[2], "repeat": lambda: [t[2]],
             "bin": lambda: [t[2], t[3]], "un": lambda: [t[2]], "subst": lambda: [t[4]]}.get(k, lambda: [])()
     srcs = list(r.sources)
     assert len(srcs) == len(kids), (k, len(srcs), len(kids))
@@ -92,7 +92,7 @@ def wf_record(roll, r, tree, reg, problems, depth=0):
     k = tree[0]
     srcs = list(r.sources)
     srolls = list(roll.source_rolls)
-    if k in ("pool", "bin", "un", "select", "filter"):
+    if k in ("pool", "bin", "un", "select", "filter", "filterby"):
         expected = srcs
     elif k == "repeat":
         expected = srcs * tree[1]
@@ -126,7 +126,7 @@ def wf_record(roll, r, tree, reg, problems, depth=0):
                     problems.append("an outcome reachable from an adopted roll is not associated with a roll")
                     break
     if depth < 6 and k != "subst":
-        subs = {"pool": lambda: tree[1], "select": lambda: tree[2], "filter": lambda: tree[2], "repeat": lambda: [tree[2]] * tree[1],
+        subs = {"pool": lambda: tree[1], "select": lambda: tree[2], "filter": lambda: tree[2], "filterby": lambda: tree[2], "repeat": lambda: [tree[2]] * tree[1],
                 "bin": lambda: [tree[2], tree[3]], "un": lambda: [tree[2]]}.get(k, lambda: [])()
         for sr, e, st in zip(srolls, expected or [], subs):
             wf_record(sr, e, st, reg, problems, depth + 1)
